@@ -580,4 +580,164 @@ example : Doc.callsE (.var (.name ⟨1, "foo"⟩)) = false := by decide
 
 end IfsSameCond
 
+/-! ## mismatched_arg_count -/
+section Mismatched
+open MismatchedArgCount
+
+/-! ### the parameter-count lattice -/
+
+theorem ov_vl (x : PCount) : overlap .variable x = .variable := by cases x <;> simp [overlap]
+theorem ov_vr (x : PCount) : overlap x .variable = .variable := by cases x <;> simp [overlap]
+theorem ov_ff (a b : Nat) : overlap (.fixed a) (.fixed b) = .fixed (max a b) := by
+  by_cases h : a = b
+  · subst h; simp [overlap]
+  · simp [overlap, h]
+theorem ov_fm (f m : Nat) : overlap (.fixed f) (.minimum m) = .minimum (min m f) := by simp [overlap]
+theorem ov_mf (f m : Nat) : overlap (.minimum m) (.fixed f) = .minimum (min m f) := by simp [overlap]
+theorem ov_mm (a b : Nat) : overlap (.minimum a) (.minimum b) = .minimum (min a b) := by simp [overlap]
+
+theorem overlap_comm (a b : PCount) : overlap a b = overlap b a := by
+  cases a <;> cases b <;> simp only [ov_vl, ov_vr, ov_ff, ov_fm, ov_mf, ov_mm] <;> congr 1 <;> omega
+
+theorem overlap_idem (a : PCount) : overlap a a = a := by
+  cases a <;> simp [overlap]
+
+/-- the join's meaning: the overlap accepts a call iff one of the two definitions does -/
+theorem accepts_overlap (a b : PCount) (p : Passed) : accepts (overlap a b) p = (accepts a p || accepts b p) := by
+  cases a <;> cases b <;> cases p <;> simp only [ov_vl, ov_vr, ov_ff, ov_fm, ov_mf, ov_mm, accepts, Bool.or_true, Bool.true_or] <;>
+    rw [Bool.eq_iff_iff] <;> simp <;> omega
+
+/-- associativity holds for what the join is used for (which calls are accepted) … -/
+theorem overlap_assoc_accepts (a b c : PCount) (p : Passed) :
+    accepts (overlap (overlap a b) c) p = accepts (overlap a (overlap b c)) p := by
+  simp only [accepts_overlap, Bool.or_assoc]
+
+/-- … but not as an equation between counts: `f(a)`, `f(a, b, c)`, `f(a, b, c, d, e, ...)` join to `Minimum(3)` or
+    `Minimum(1)` depending on the order (both accept every call, and a `Minimum` count is never printed) -/
+theorem overlap_not_assoc :
+    overlap (overlap (.fixed 1) (.fixed 3)) (.minimum 5) ≠ overlap (.fixed 1) (overlap (.fixed 3) (.minimum 5)) := by decide
+
+/-! ### "flagged ⇒ every recorded definition rejects the call" -/
+
+/-- the join of a non-empty list of counts, in the order `verify_assignment` folds them -/
+def joinAll : List PCount → Option PCount
+  | [] => none
+  | c :: cs => some (cs.foldl (fun acc x => overlap x acc) c)
+
+theorem accepts_foldl (p : Passed) : ∀ (cs : List PCount) (c : PCount),
+    accepts (cs.foldl (fun acc x => overlap x acc) c) p = (accepts c p || cs.any (fun x => accepts x p))
+  | [], c => by simp
+  | x :: cs, c => by
+    simp only [List.foldl_cons, List.any_cons]
+    rw [accepts_foldl p cs (overlap x c), accepts_overlap]
+    cases accepts x p <;> cases accepts c p <;> simp
+
+theorem joinAll_accepts {l : List PCount} {pc : PCount} (h : joinAll l = some pc) (p : Passed) :
+    accepts pc p = l.any (fun x => accepts x p) := by
+  cases l with
+  | nil => simp [joinAll] at h
+  | cons c cs =>
+    simp only [joinAll, Option.some.injEq] at h
+    subst h
+    rw [accepts_foldl]; simp
+
+theorem joinAll_snoc (l : List PCount) (c : PCount) :
+    joinAll (l ++ [c]) = some (match joinAll l with | some older => overlap c older | none => c) := by
+  cases l with
+  | nil => simp [joinAll]
+  | cons a as => simp [joinAll, List.foldl_append]
+
+/-- the map built by the first pass holds, for every variable, the join of the counts recorded for it -/
+theorem build_eq_joinAll (v : Nat) : ∀ (evs : List Ev) (m : Defs) (acc : List PCount), m v = joinAll acc →
+    (evs.foldl applyEv m) v =
+      joinAll (evs.foldl (fun acc ev => if ev.var = v then (if ev.insert then [ev.count] else acc ++ [ev.count]) else acc) acc)
+  | [], m, acc, h => by simpa using h
+  | ev :: evs, m, acc, h => by
+    simp only [List.foldl_cons]
+    apply build_eq_joinAll v evs
+    by_cases hv : ev.var = v
+    · subst hv
+      cases hi : ev.insert with
+      | true => simp [applyEv, hi, Defs.set, joinAll]
+      | false =>
+        simp only [applyEv, hi, Bool.false_eq_true, if_false, if_true]
+        rw [joinAll_snoc, ← h]
+        cases hm : m ev.var <;> simp [Defs.set]
+    · have hv' : ¬ v = ev.var := fun e => hv e.symm
+      simp only [hv, if_false]
+      rw [← h]
+      unfold applyEv
+      cases hi : ev.insert with
+      | true => simp [Defs.set, hv']
+      | false => cases hm : m ev.var <;> simp [Defs.set, hv']
+
+theorem build_recorded (v : Nat) (evs : List Ev) : build evs v = joinAll (recorded v evs) :=
+  build_eq_joinAll v evs (fun _ => none) [] rfl
+
+theorem callee_defs {σ : Selene.Scope.St} {defs : Defs} {c : FCall} {v : Nat} {pc : PCount} {a : Args}
+    (h : callee σ defs c = some (v, pc, a)) : defs v = some pc := by
+  unfold callee at h
+  split at h
+  · split at h
+    · rename_i v' _
+      cases hd : defs v' with
+      | none => simp [hd] at h
+      | some pc' =>
+        simp [hd] at h
+        obtain ⟨h1, h2, _⟩ := h
+        subst h1; subst h2; exact hd
+    · simp at h
+  · simp at h
+
+/-- soundness: a reported call names a variable for which the first pass recorded at least one function definition,
+    and **every** definition recorded for it (since its declaration) rejects the call -/
+theorem mismatched_arg_count_sound {σ : Selene.Scope.St} {P : Block} {g : Diag} (h : g ∈ runWith σ P) :
+    ∃ c v pc a, Node.call c ∈ nBlock P ∧ callee σ (build (events σ (nBlock P))) c = some (v, pc, a) ∧ g.primary = c.span ∧
+      recorded v (events σ (nBlock P)) ≠ [] ∧
+      ∀ d ∈ recorded v (events σ (nBlock P)), accepts d (passedOf a) = false := by
+  obtain ⟨n, hn, hg⟩ := List.mem_flatMap.mp h
+  cases n with
+  | call c =>
+    simp only [checkCall] at hg
+    cases hc : callee σ (build (events σ (nBlock P))) c with
+    | none => simp [hc] at hg
+    | some t =>
+      obtain ⟨v, pc, a⟩ := t
+      simp only [hc] at hg
+      by_cases hacc : accepts pc (passedOf a) = true
+      · simp [hacc] at hg
+      · simp [hacc] at hg
+        subst hg
+        have hdef : build (events σ (nBlock P)) v = some pc := callee_defs hc
+        rw [build_recorded] at hdef
+        have hall := joinAll_accepts hdef (passedOf a)
+        refine ⟨c, v, pc, a, hn, hc, rfl, ?_, ?_⟩
+        · intro he; rw [he] at hdef; simp [joinAll] at hdef
+        · intro d hd
+          have : (recorded v (events σ (nBlock P))).any (fun x => accepts x (passedOf a)) = false := by
+            rw [← hall]; simpa using hacc
+          rw [List.any_eq_false] at this
+          simpa using this d hd
+  | block b => simp [checkCall] at hg
+  | last l => simp [checkCall] at hg
+  | stmt s => simp [checkCall] at hg
+
+/-- canonical `local function foo(a, b) end … foo(1, 2, 3)`: a call, anywhere in the program, whose name resolves
+    to a variable with a recorded fixed count smaller than the number of arguments is reported -/
+theorem mismatched_arg_count_canon {σ : Selene.Scope.St} {P : Block} {c : FCall} {v r : Nat} {a : Args}
+    (hw : Within (.block P) (.fcall c))
+    (hc : callee σ (build (events σ (nBlock P))) c = some (v, .fixed r, a))
+    (hmany : accepts (.fixed r) (passedOf a) = false) :
+    ∃ g ∈ runWith σ P, g.primary = c.span := by
+  refine ⟨{ code := "mismatched_arg_count", primary := c.span, msg := toMessage (.fixed r) (passedOf a),
+            secondary := definitionRanges σ (nBlock P) v }, ?_, rfl⟩
+  refine List.mem_flatMap.mpr ⟨.call c, within_fcall_mem hw, ?_⟩
+  simp [checkCall, hc, hmany]
+
+/-- three arguments for two parameters are rejected; a trailing call or `...` counts as at least one -/
+example : accepts (.fixed 2) (passedOf (.parens ⟨0, 6⟩ (.cons (.num ⟨1, "1"⟩) (.cons (.num ⟨3, "0x2"⟩) (.cons (.num ⟨5, "3.0"⟩) .nil))))) = false := by
+  decide
+
+end Mismatched
+
 end Selene.Props.C04B
